@@ -145,21 +145,26 @@ structure ErrView where
 
 def dots : Bytes := [46, 46, 46]
 
-/-- The body of the `for (line_number, line) in lines.enumerate()` loop (after the repair of
-    finding F2: both cuts move down to a character boundary). -/
+/-- `if context.len() > 40 { &context[0..40] + "..." }` with the cut moved down to a character
+    boundary (repair of F2). -/
+def cutTail (ctx : Bytes) : Bytes :=
+  if ctx.length > 40 then ctx.take (boundaryAtOrBelow ctx 40) ++ dots else ctx
+
+/-- Excerpt and caret column for an error at column `col0` of `line`: when the column is past 40
+    the beginning is trimmed (again at a character boundary) and replaced by `...`. -/
+def excerptOf (line : Bytes) (col0 : Nat) : Bytes × Nat :=
+  if col0 > 40 then
+    let start := boundaryAtOrBelow line (col0 - 20)
+    (dots ++ cutTail (line.drop start), 3 + (col0 - start))
+  else (cutTail line, col0)
+
+/-- The body of the `for (line_number, line) in lines.enumerate()` loop. -/
 def formatLines (errOfs : Nat) : List Bytes → Nat → Nat → Res ErrView
   | [], _, _ => .panic "invalid offset when formatting error"
   | line :: rest, lineNo, ofs =>
     if ofs + line.length ≥ errOfs then
-      let col0 := errOfs - ofs
-      let (pre, ctx, col) :=
-        if col0 > 40 then
-          let start := boundaryAtOrBelow line (col0 - 20)
-          (dots, line.drop start, 3 + (col0 - start))
-        else ([], line, col0)
-      let body :=
-        if ctx.length > 40 then ctx.take (boundaryAtOrBelow ctx 40) ++ dots else ctx
-      .ok ⟨lineNo + 1, pre ++ body, col⟩
+      let e := excerptOf line (errOfs - ofs)
+      .ok ⟨lineNo + 1, e.1, e.2⟩
     else formatLines errOfs rest (lineNo + 1) (ofs + line.length + 1)
 
 def formatParseError (buf : Array UInt8) (errOfs : Nat) : Res ErrView :=
